@@ -36,7 +36,9 @@ type FuncResult struct {
 	Unsupported []string `json:"unsupported,omitempty"`
 	Trusted     []string `json:"trusted,omitempty"`
 	Vacuity     string   `json:"vacuity"` // ok | requires-unsat | n/a
-	Canary      string   `json:"canary"`  // refuted (good) | discharged (vacuous!) | n/a
+	Canary      string   `json:"canary"`  // refuted (good) | unreachable-return (some return) | all-returns-unreachable (vacuous!) | unknown | n/a
+	nReach      int
+	nUnreach    int
 	NObl        int      `json:"n_obligations"`
 	Instrs      int      `json:"ssa_instrs"`
 }
@@ -266,14 +268,17 @@ func main() {
 			if fr := frByKey[fk]; fr != nil {
 				switch j.res.Status {
 				case "sat":
+					fr.nReach++
 					if fr.Canary != "discharged" {
 						fr.Canary = "refuted"
 					}
 				case "unsat":
+					fr.nUnreach++
 					if fr.Canary == "n/a" {
 						fr.Canary = "unreachable-return"
 					}
 				default:
+					fr.nReach++ // not shown unreachable
 					if fr.Canary == "n/a" {
 						fr.Canary = "unknown"
 					}
@@ -316,6 +321,11 @@ func main() {
 		}
 	}
 	sort.Strings(out.Unbound)
+	for _, fr := range out.Funcs {
+		if fr.nUnreach > 0 && fr.nReach == 0 {
+			fr.Canary = "all-returns-unreachable"
+		}
+	}
 	out.WallS = time.Since(t0).Seconds()
 	data, _ := json.MarshalIndent(out, "", " ")
 	if *outJSON != "" {
@@ -339,7 +349,10 @@ func main() {
 		if fr.Error != "" {
 			fmt.Printf("ERROR     %s: %s\n", fr.Key, fr.Error)
 		}
-		if fr.Vacuity == "requires-unsat" || fr.Canary == "unreachable-return" {
+		if fr.nUnreach > 0 && fr.nReach == 0 {
+			fr.Canary = "all-returns-unreachable"
+		}
+		if fr.Vacuity == "requires-unsat" || fr.Canary == "unreachable-return" || fr.Canary == "all-returns-unreachable" {
 			fmt.Printf("VACUITY   %s: cover=%s canary=%s\n", fr.Key, fr.Vacuity, fr.Canary)
 		}
 	}
